@@ -144,22 +144,25 @@ fn err_is<T>(r: desert_core::Result<T>, pred: impl Fn(&Error) -> bool, msg: &'st
 }
 
 proof! {
-    //@ props=C03,C06 tier=quick bounds=K2:same-version(2)-reader;windows[(0,3),(3,1),empty];header-says-b-made-optional;payload-symbolic cap=900
+    //@ props=C03,C06,C02 tier=quick bounds=K2:same-version(2)-reader;chunk0={a,b:Option(made-optional),c},chunk1={f1};header-says-b-made-optional;payload-symbolic cap=900
     fn c03_k2_same_version() unwind(6) {
-        // stored version 2 data of {a: u8, b: Option<u8>, f1: u8}: chunk0 = a, tag, [b]; chunk1 = f1
+        // stored version 2 data of {a: u8, b: Option<u8>, c: u8, f1: u8}: chunk0 = a, tag, b, c; chunk1 = f1
         let mut data: [u8; 6] = sym::bytes();
         data[1] = 1; // b is Some
         let meta = k2_metadata();
         let mut ctx = DeserializationContext::new(&data);
-        let mut d = AdtDeserializer::verif_from_parts(&meta, &mut ctx, 2, &[(0, 3), (3, 1), (0, 0)], &[(0, 1, 2)], &[]);
+        let mut d = AdtDeserializer::verif_from_parts(&meta, &mut ctx, 2, &[(0, 4), (4, 1), (0, 0)], &[(0, 1, 2)], &[]);
         let a = d.read_field::<u8>("a", None);
         assert!(matches!(a, Ok(x) if x == data[0]), "field a not taken from the start of chunk 0");
         let b = d.read_optional_field::<u8>("b", None);
         assert!(matches!(b, Ok(Some(x)) if x == data[2]), "optional field b not read as tag + value from chunk 0");
+        // a required field after the optional one: its position is 2, which is not marked made-optional
+        let c = d.read_field::<u8>("c", None);
+        assert!(matches!(c, Ok(x) if x == data[3]), "a required field after an optional one was not read as a plain value");
         let f1 = d.read_field::<u8>("f1", Some(9));
-        assert!(matches!(f1, Ok(x) if x == data[3]), "added field f1 not taken from chunk 1");
+        assert!(matches!(f1, Ok(x) if x == data[4]), "added field f1 not taken from chunk 1");
         let inputs = d.verif_inputs();
-        assert!(inputs[0] == (0, 3, 3) && inputs[1] == (3, 1, 4), "field reads did not advance their own chunk cursors only");
+        assert!(inputs[0] == (0, 4, 4) && inputs[1] == (4, 1, 5), "field reads did not advance their own chunk cursors only");
         std::mem::forget(inputs);
         std::mem::forget(d);
         assert!(ctx.verif_pos() == 0, "field reads moved the record cursor");
